@@ -210,6 +210,10 @@ def run_impl(prop, mode, items, nchildren, timeout_s, extra_env=None):
         r = subprocess.run([PY, os.path.join(ROOT, 'harness', 'worker.py'), prop, cpath, opath,
                             str(nchildren), str(timeout_s)], env=env, cwd=ROOT,
                            stdout=subprocess.PIPE, stderr=subprocess.PIPE, text=True)
+        if r.returncode == -14:
+            # killed by the warm-up alarm: the library did not terminate on the small standard warm-up inputs
+            log('impl worker (%s): warm-up did not terminate; reporting HANG' % mode)
+            return {i: 'HANG' for (i, c, t) in items[:50]}
         if r.returncode != 0 or not os.path.exists(opath):
             raise MachineryError('impl worker (%s) failed rc=%s\n%s' % (mode, r.returncode, r.stderr[-3000:]))
         res = {}
